@@ -3,6 +3,7 @@
 from __future__ import annotations
 
 import copy
+import json
 import datetime
 import traceback
 
@@ -86,6 +87,9 @@ REPL = [None, 0, 7, -1, 1.5, True, False, "", "x", [], [1], ["x"], {}, {"a": 1},
         "1 of", "a and", "(", "critical", "unknown", {"gte": "x"}, {"gte": 1, "lte": 2}, {"foo": 1},
         {"gte": None}, {"gte": [1]}, {"gte": 1, "percentile": "p"}, "any", ["rule_one", 5], {"__date__": "2024-01-02"},
         "x" * 300, {"condition": "s", "s": {"|": 1}}, {"f|unknownmod": 1}, {"f|re": "("}, {"f|cidr": "x"},
+        # further value classes: digits that int() refuses, repeat counts beyond the regex engine, mixed key types
+        "1\u00b2m", "\u00b2h", "\u2460d", "\u0663m", "+5m", " 5m", {"f|re": "a{99999999999}"}, {"gte": 1, "__k__:1": "x"},
+        {"sel": {"f": "x"}, "__k__:1": {"g": 1}, "condition": "not sel", "rules": "any"},
         # boundary numbers and sizes
         {"__k__:1": "x"}, {"__k__:true": 1, "a": 2}, {"__k__:null": "x"}, [{"__k__:1.5": "x"}], {"__k__:4688": {"__k__:1": 1}},
         2 ** 1024, -(10 ** 400), float("inf"), float("nan"), {"gte": float("inf")}, {"gte": 2 ** 1024}, [2 ** 1024, "x"],
@@ -263,7 +267,7 @@ def run(ctx) -> None:
         for path in paths(coll):
             if not path:
                 continue
-            for value, delete in [(None, True)] + [(r, False) for r in REPL[:24]]:
+            for value, delete in [(None, True)] + [(r, False) for r in REPL[:24] + [r for r in REPL[24:] if "__k__" in json.dumps(r, default=str)]]:
                 i += 1
                 if i % ctx.nshards != ctx.shard:
                     continue
